@@ -1,19 +1,35 @@
-"""TLC on the run-level design model (PamsRunner) for the run-level properties."""
+"""TLC on the run-level design models for the run-level properties."""
 from . import tlc
 from .common import MachineryError
 
-MODELS = {
-    "quick": [("MC_PamsRunner_quick", "MC_PamsRunner_quick.cfg", 900)],
-    "thorough": [("MC_PamsRunner_quick", "MC_PamsRunner_quick.cfg", 900),
-                 ("MC_PamsRunner_thorough", "MC_PamsRunner_thorough.cfg", 5400)],
-}
+RUNNER = {"quick": [("MC_PamsRunner_quick", 900)], "thorough": [("MC_PamsRunner_quick", 900), ("MC_PamsRunner_thorough", 5400)]}
+HALT = {"quick": [("MC_PamsHalt_quick", 900)], "thorough": [("MC_PamsHalt_quick", 900), ("MC_PamsHalt_fixed", 3600)]}
+TABLE_EVENTS = [("MC_TableEvents", 900)]
+# design models that MUST be rejected by TLC: the defective design found in the pinned tree (regression of the spec)
+MUST_FAIL = {"C16": [("MC_PamsHalt_asis", 900)], "C09": [("MC_PamsHalt_asis", 900)]}
+
+
+def plan(prop, tier):
+    if prop in ("C14", "C15", "C17"):
+        return TABLE_EVENTS
+    if prop == "C16":
+        return HALT[tier] + TABLE_EVENTS
+    if prop == "C09":
+        return RUNNER[tier] + HALT[tier]
+    return RUNNER[tier]
 
 
 def models(prop, tier):
     out = []
-    for mod, cfg, to in MODELS[tier]:
-        r = tlc.run_tlc(mod, cfg, timeout=to, tag=mod)
+    for mod, to in plan(prop, tier):
+        r = tlc.run_tlc(mod, mod + ".cfg", timeout=to, tag=mod)
         if not r.ok:
             raise MachineryError("design model %s: %s" % (mod, r.violation or r.error))
         out.append({"module": mod, "states": r.distinct, "transitions": r.generated, "depth": r.depth, "wall_s": round(r.wall, 1)})
+    for mod, to in MUST_FAIL.get(prop, []):
+        r = tlc.run_tlc(mod, mod + ".cfg", timeout=to, tag=mod)
+        if r.violation is None:
+            raise MachineryError("regression model %s was expected to violate an invariant (the defective as-found design) but TLC reported: %s" % (mod, r.error or "no error"))
+        out.append({"module": mod, "states": r.distinct, "transitions": r.generated, "depth": r.depth, "wall_s": round(r.wall, 1),
+                    "expected_violation": r.violation})
     return out
